@@ -88,7 +88,7 @@ inductive Act
   deriving Repr, DecidableEq
 
 /-- `skipActionLine`: blank lines are skipped, a prefix is a protocol error -/
-def skipAction (E : Env) (checkN n : Nat) : Nat → Bytes → Act
+def skipActionF (E : Env) (checkN n : Nat) : Nat → Bytes → Act
   | 0, _ => .err .fuel
   | f + 1, s =>
     match readLine E s with
@@ -96,9 +96,11 @@ def skipAction (E : Env) (checkN n : Nat) : Nat → Bytes → Act
     | .fail => .err .scan
     | .line l pre rest =>
       if pre then .err .actionTooLong
-      else if l = [] then skipAction E checkN n f rest
+      else if l = [] then skipActionF E checkN n f rest
       else if unknownAction checkN n l then .err .unknownAction
       else .ok rest
+
+def skipAction (E : Env) (checkN n : Nat) (s : Bytes) : Act := skipActionF E checkN n (s.length + 1) s
 
 inductive DocL
   | err (e : Err)
@@ -107,20 +109,22 @@ inductive DocL
   deriving Repr, DecidableEq
 
 /-- `for isPrefix { doc, isPrefix, err = r.r.ReadLine() }` -/
-def skipLong (E : Env) : Nat → Bytes → DocL
+def skipLongF (E : Env) : Nat → Bytes → DocL
   | 0, _ => .err .fuel
   | f + 1, s =>
     match readLine E s with
     | .eof => .err .readDoc
     | .fail => .err .readDoc
-    | .line _ pre rest => if pre then skipLong E f rest else .skipped rest
+    | .line _ pre rest => if pre then skipLongF E f rest else .skipped rest
+
+def skipLong (E : Env) (s : Bytes) : DocL := skipLongF E (s.length + 1) s
 
 /-- `esBulkDocReader.readDoc` -/
-def readDocLine (E : Env) (fuel : Nat) (s : Bytes) : DocL :=
+def readDocLine (E : Env) (s : Bytes) : DocL :=
   match readLine E s with
   | .eof => .err .readDoc
   | .fail => .err .readDoc
-  | .line l pre rest => if pre then skipLong E fuel rest else .doc l rest
+  | .line l pre rest => if pre then skipLong E rest else .doc l rest
 
 inductive RD
   | done
@@ -128,18 +132,23 @@ inductive RD
   | doc (d : Bytes) (rest : Bytes) (n : Nat)
   deriving Repr, DecidableEq
 
+/-- second half of one `ReadDoc` iteration (after the action line): `k` is the next loop iteration -/
+def docStep (E : Env) (k : Nat → Bytes → RD) (n : Nat) (rest : Bytes) : RD :=
+  match readDocLine E rest with
+  | .err e => .err e
+  | .skipped rest' => k (n + 1) rest'
+  | .doc d rest' => if d = [] then .err .emptyDoc else .doc d rest' (n + 1)
+
 /-- `esBulkDocReader.ReadDoc`; `n` = `actionLinesRead` -/
-def readDoc (E : Env) (checkN : Nat) : Nat → Nat → Bytes → RD
+def readDocF (E : Env) (checkN : Nat) : Nat → Nat → Bytes → RD
   | 0, _, _ => .err .fuel
   | f + 1, n, s =>
-    match skipAction E checkN n (f + 1) s with
+    match skipAction E checkN n s with
     | .eof => .done
     | .err e => .err e
-    | .ok rest =>
-      match readDocLine E (f + 1) rest with
-      | .err e => .err e
-      | .skipped rest' => readDoc E checkN f (n + 1) rest'
-      | .doc d rest' => if d = [] then .err .emptyDoc else .doc d rest' (n + 1)
+    | .ok rest => docStep E (readDocF E checkN f) n rest
+
+def readDoc (E : Env) (checkN n : Nat) (s : Bytes) : RD := readDocF E checkN (s.length + 1) n s
 
 /-- how the sequence of `ReadDoc` calls ends -/
 inductive End
@@ -149,13 +158,15 @@ inductive End
 
 /-- every document `ReadDoc` yields until it reports the end or an error (what a caller that never stops
 early observes) -/
-def readAll (E : Env) (checkN : Nat) : Nat → Nat → Bytes → List Bytes × End
+def readAllF (E : Env) (checkN : Nat) : Nat → Nat → Bytes → List Bytes × End
   | 0, _, _ => ([], .err .fuel)
   | f + 1, n, s =>
-    match readDoc E checkN (f + 1) n s with
+    match readDoc E checkN n s with
     | .done => ([], .done)
     | .err e => ([], .err e)
-    | .doc d rest n' => ((readAll E checkN f n' rest).1.cons d, (readAll E checkN f n' rest).2)
+    | .doc d rest n' => (d :: (readAllF E checkN f n' rest).1, (readAllF E checkN f n' rest).2)
+
+def readAll (E : Env) (checkN : Nat) (s : Bytes) : List Bytes × End := readAllF E checkN (s.length + 1) 0 s
 
 /-! ## ProcessDocuments -/
 
@@ -171,13 +182,24 @@ def le32 (n : Nat) : Bytes := [n % 256, n / 256 % 256, n / 65536 % 256, n / 1677
 /-- `binaryDocs.B = AppendUint32(binaryDocs.B, len(doc)); binaryDocs.B = append(binaryDocs.B, doc...)` -/
 def appendDoc (payload d : Bytes) : Bytes := payload ++ le32 d.length ++ d
 
+/-- the part of a document's (parent) `frac.MetaData` the property talks about: the MID of its ID and `Size`;
+tokens, the random RID and the size-0 metas of nested fields are outside the model -/
+structure Meta where
+  mid : Nat
+  size : Nat
+  deriving Repr, DecidableEq
+
 structure St where
   total : Nat
   docs : Bytes          -- binaryDocs.B
+  metas : List Meta     -- binaryMetas.B, one parent meta per document
   deriving Repr, DecidableEq
 
-def St.init : St := ⟨0, []⟩
-def St.push (st : St) (d : Bytes) : St := ⟨st.total + 1, appendDoc st.docs d⟩
+def St.init : St := ⟨0, [], []⟩
+
+/-- `mk d` = the meta `proc.Process` produces for document `d` (ID time by the time rule, `Size = len(doc)`) -/
+def St.push (mk : Bytes → Meta) (st : St) (d : Bytes) : St :=
+  ⟨st.total + 1, appendDoc st.docs d, st.metas ++ [mk d]⟩
 
 /-- result of `processDocsToCompressor`: `(total, err)` with the buffers -/
 inductive PR
@@ -186,17 +208,17 @@ inductive PR
   deriving Repr, DecidableEq
 
 /-- the `for { readNext(); proc.Process(); append }` loop of `processDocsToCompressor` -/
-def processDocs (E : Env) (checkN : Nat) (kind : Bytes → Kind) : Nat → Nat → Bytes → St → PR
+def processDocs (E : Env) (checkN : Nat) (kind : Bytes → Kind) (mk : Bytes → Meta) : Nat → Nat → Bytes → St → PR
   | 0, _, _, _ => .err .fuel
   | f + 1, n, s, st =>
-    match readDoc E checkN (f + 1) n s with
+    match readDoc E checkN n s with
     | .done => .ok st
     | .err e => .err e
     | .doc d rest n' =>
       match kind d with
       | .invalid => .err .badJSON
-      | .nonObject => processDocs E checkN kind f n' rest st
-      | .object => processDocs E checkN kind f n' rest (st.push d)
+      | .nonObject => processDocs E checkN kind mk f n' rest st
+      | .object => processDocs E checkN kind mk f n' rest (st.push mk d)
 
 /-- `(total, err)` of `ProcessDocuments`: the number of created items of the response, or the error -/
 inductive Resp
@@ -207,17 +229,25 @@ inductive Resp
 /-- what the HTTP handler answers and what reached the storage client -/
 structure Result where
   resp : Resp
-  stored : Option (Nat × Bytes)         -- arguments `(count, docs)` of the single `StoreDocuments` call, if made
+  stored : Option (Nat × Bytes × List Meta)   -- `(count, docs, metas)` of the single `StoreDocuments` call, if made
   deriving Repr, DecidableEq
 
 /-- `Ingestor.ProcessDocuments` (rate limiting aside): nothing is stored on error or for an empty bulk -/
-def processDocuments (E : Env) (checkN : Nat) (kind : Bytes → Kind) (storeOk : Bool) (body : Bytes) : Result :=
-  match processDocs E checkN kind (body.length + 1) 0 body St.init with
+def processDocuments (E : Env) (checkN : Nat) (kind : Bytes → Kind) (mk : Bytes → Meta) (storeOk : Bool)
+    (body : Bytes) : Result :=
+  match processDocs E checkN kind mk (body.length + 1) 0 body St.init with
   | .err e => ⟨.error e, none⟩
   | .ok st =>
     if st.total = 0 then ⟨.ok 0, none⟩
-    else if storeOk then ⟨.ok st.total, some (st.total, st.docs)⟩
-    else ⟨.error .store, some (st.total, st.docs)⟩
+    else if storeOk then ⟨.ok st.total, some (st.total, st.docs, st.metas)⟩
+    else ⟨.error .store, some (st.total, st.docs, st.metas)⟩
+
+/-- status code written by `BulkHandler.ServeHTTP`.  `processDocsToCompressor` wraps the reader's and the
+processor's errors with `%s`, so `errors.Is(err, errWrongProtocol)` never holds in the handler and every
+failure of `ProcessDocuments` modelled here is answered with 500 (429 belongs to the rate limiter) -/
+def httpStatus : Resp → Nat
+  | .ok _ => 200
+  | .error _ => 500
 
 /-- decoder of the docs payload (`packer.BytesUnpacker.GetBinary` in a loop) -/
 def decodeDocs : Nat → Bytes → Option (List Bytes)
